@@ -24,9 +24,9 @@ ck.log("genmodel done")
 gen_failed = not ok
 if not ok:
     broken.append(("genmodel: lock/op traces, once-guard or iterate shape of go/ir no longer recognised", out[-3000:]))
-ok, out = ck.coq_make(["Model/C18_Check.vo", "Proofs/C18_Task.vo", "Proofs/C18_Sync.vo", "Proofs/C18_Check.vo", "Examples/C18.vo"])
+ok, out = ck.coq_make(["Gen/C18_LockTraces.vo", "Model/C18_Check.vo", "Proofs/C18_Task.vo", "Proofs/C18_Sync.vo", "Proofs/C18_Check.vo", "Examples/C18.vo"])
 if not ok:
-    ok2, out2 = ck.coq_make(["Model/C18_Check.vo"])
+    ok2, out2 = ck.coq_make(["Gen/C18_LockTraces.vo", "Model/C18_Check.vo"])
     broken.append(("coq-make", out[-3000:]))
     if not ok2:
         ck.violation("coq-model-broken", "Coq model of C18 does not compile", {"log": out2[-3000:]}, no_input=True)
@@ -216,12 +216,13 @@ nontrivial_waits = 0
 for name in sorted(shards):
     rc, o = results[name]
     base = int(name[2:]) * per
-    M, V, N = ck.printed_value(o, "M"), ck.printed_value(o, "V"), ck.printed_value(o, "N")
+    unscope = lambda t: None if t is None else re.sub(r"%(nat|N)\b", "", t)
+    M, V, N = unscope(ck.printed_value(o, "M")), unscope(ck.printed_value(o, "V")), unscope(ck.printed_value(o, "N"))
     if rc != 0 or M is None or V is None:
         ck.violation("cases-eval", "cases file %s did not evaluate" % name, {"log": o[-3000:]}, no_input=True)
         continue
     try:
-        nontrivial_waits += int(re.sub(r"%nat", "", N or "0"))
+        nontrivial_waits += int(N or "0")
     except ValueError:
         pass
     if V != "[]":
